@@ -33,7 +33,7 @@ COND_VARIANTS = ["Simple", "Ordinary", "Universal", "ExtDrift", "Detrended"]
 
 def generate(tier, seed):
     rng = np.random.default_rng([seed, 7])
-    n = {"quick": 25, "thorough": 300}[tier]
+    n = {"quick": 25, "thorough": 900}[tier]
     cases = []
     for rep in range(n):
         for v in COND_VARIANTS:
